@@ -359,6 +359,19 @@ def cleanup_mark_findings(F):
         out.append(("set-tag=>marked", bool(eqs) and bool(marks) and skipped is None, "every CommandComplete `SET` marks the connection for RESET ALL",
                     "a CommandComplete `SET` marks the connection for RESET ALL only under a condition (%s): `COMMIT; SET x` sent as one query (the SET runs outside the transaction, its tag arrives before the ReadyForQuery that "
                     "updates in_transaction) and a SET inside a transaction that commits both stay in force for the next client" % (skipped or "no mark / no SET tag compare found")))
+    # what the server answered to the clean-up statement decides: query() returns Ok for an ErrorResponse too (it only sets Server.query_failed).
+    # The statements run as one implicit transaction; a statement_timeout the leaving client set, or a CancelRequest that arrives late, cancels
+    # them like any query and takes the RESET ALL back - marks and release gate may be cleared only where the flag was found false (D64)
+    if cc:
+        sw_cc = switches(cc)
+        q_cc = [c for c in cc.calls("pgcat::server::Server::query") if not any(x.upper().startswith(("ROLLBACK", "ABORT")) for x in arg_strs(cc, c))]
+        _t, qf_false = field_bool_edges(cc, "query_failed", sw_cc)
+        clears = [c.block for c in cc.calls("pgcat::server::CleanupState::reset")] + [blk for blk, i, st in cc.assigns() if proj_fields(st["lhs"])[-1:] == ["needs_checkin_cleanup"] and st["rv"]["k"] == "use" and const_int(st["rv"].get("op")) == 0]
+        marks_cc = [c.block for c in cc.calls("pgcat::server::Server::mark_bad")]
+        w_cc = cc.uncrossed_path([c.target for c in q_cc if c.target is not None], clears, edges=set(qf_false), blocks=marks_cc) if q_cc and clears else [0]
+        out.append(("cleanup-answer-verified", bool(q_cc) and bool(clears) and w_cc is None, "after its clean-up query checkin_cleanup clears the marks and the release gate only where Server.query_failed was found false (or the connection was given up)",
+                    "checkin_cleanup clears the marks and opens the release gate whatever the server answered to `RESET ROLE;RESET ALL;..`: when the statement is cancelled (the statement_timeout the leaving client set, a late CancelRequest) "
+                    "the RESET is rolled back, the answer is an ErrorResponse nobody looks at, and the next client runs under the previous client's settings" + (" [%s]" % cc.describe_path(w_cc) if w_cc and w_cc != [0] else "")))
     out.append(("reset-after-cleanup-query", ok_reset, "CleanupState::reset() is called only by checkin_cleanup after the clean-up query" + why_sp,
              "CleanupState::reset() is called from %s / not after the clean-up query: marks are dropped without cleaning the session" % rc_))
     return out
@@ -634,3 +647,107 @@ def definition_identity_findings(F):
         rd = fields_read(eb)
         _check(want <= rd, "Eq:%s" % an.split("::")[-1], "%s == compares all %d fields" % (an.split("::")[-1], len(want)), "%s == ignores field(s) %s: a reload that changes only those is treated as `no change`" % (an, sorted(want - rd)))
     return out
+
+
+def refused_batch_forget_finding(F, c, HM):
+    """`c` is a HashMap remove / retain on Client.prepared_statements inside forget_buffered_prepared_statements.
+    A refused batch forgets the names *it* registered. The key must be the very value buffer_parse used as the key of its insert: the name in the
+    client's incoming Parse. It cannot be recovered from the buffered message (`data`) or the cached Parse (`metadata`) - both carry the rewritten
+    PGCAT_n name, which every statement with the same text shares (D52) and which is never a key of this map (D63: nothing was forgotten).
+    Returns (ok, okmsg, failmsg)"""
+    m = c.name.split("::")[-1]
+    fb_ = c.body
+    via = set()
+    if m == "remove" and len(c.args) > 1:
+        for o in origins(fb_, c.args[1], taint=True):
+            pr = list(o.proj)
+            for k_, p_ in enumerate(pr):
+                if p_ == "@Parse" and k_ + 1 < len(pr) and pr[k_ + 1].startswith("."):
+                    via.add(pr[k_ + 1][1:])
+    key_calls = {o.call.name for o in origins(fb_, c.args[1], taint=True) if o.kind == "call" and o.call.name.startswith("pgcat::")} if m == "remove" and len(c.args) > 1 else set()
+    carried = sorted(via - {"data", "metadata"})
+    ok_key = m == "remove" and bool(carried) and not (via & {"data", "metadata"}) and not key_calls
+    # ... and the field it is carried in is filled, where the Parse is buffered, with the insert key
+    ok_fill = False
+    bp_ = F.body("pgcat::client::Client::buffer_parse")
+    cn_ = F.body("pgcat::messages::ExtendedProtocolData::create_new_parse")
+    if ok_key and bp_ is not None and cn_ is not None:
+        fld_param = {}
+        for blk_, i_, st_ in cn_.assigns():
+            if st_["rv"]["k"] == "agg" and st_["rv"].get("variant") == "Parse":
+                for f_, op_ in zip(st_["rv"]["fields"], st_["rv"]["ops"]):
+                    prm_ = [o.what for o in origins(cn_, op_) if o.kind == "param"]
+                    if prm_:
+                        fld_param[f_] = prm_[0] - 1
+        ins_keys = set()
+        for k_ in bp_.calls(HM):
+            if k_.name.split("::")[-1] == "insert" and len(k_.args) > 1:
+                ins_keys |= {o.call.block for o in origins(bp_, k_.args[1]) if o.kind == "call" and o.call.name == "pgcat::messages::Parse::get_name"}
+        for f_ in carried:
+            if f_ not in fld_param:
+                continue
+            for k_ in bp_.calls("pgcat::messages::ExtendedProtocolData::create_new_parse"):
+                if fld_param[f_] < len(k_.args):
+                    src_ = {o.call.block for o in origins(bp_, k_.args[fld_param[f_]]) if o.kind == "call" and o.call.name == "pgcat::messages::Parse::get_name"}
+                    if src_ and src_ <= ins_keys:
+                        ok_fill = True
+    return (ok_key and ok_fill,
+            "the refused batch's names are removed by the name the client gave them: carried in ExtendedProtocolData::Parse.%s, which buffer_parse fills with the key of its insert" % "/".join(carried),
+            "forget_buffered_prepared_statements does not remove the keys buffer_parse inserted (key taken from %s): the buffered message and the cached Parse carry the rewritten PGCAT_n name - matching on it forgets an earlier, "
+            "acknowledged statement with the same text (its next Bind is answered with `does not exist`), looking it up as a key forgets nothing: a statement the plugins refused stays bound to its name and a later "
+            "Bind / Execute / Sync runs it on the server" % (sorted(via) or sorted(x.split("::")[-1] for x in key_calls) or m))
+
+
+def pool_identity_gap(F):
+    """from_config keeps a live pool when its identity (ConnectionPool.config_hash) is unchanged. The identity has to cover everything the pool is built
+    from: its own section (Pool::hash_value, C14-R3 Hash:*) and every value of the rest of the configuration that from_config reads while building -
+    [general] fields and the global [plugins] section. Returns (used, hashed, exempt) as sets of names ("general.ban_time", "plugins"), or None when
+    the anchors are missing. `validate_config` only decides whether from_config connects while it builds."""
+    b = F.body("pgcat::pool::ConnectionPool::from_config::{closure#0}")
+    if b is None:
+        return None
+    exempt = {"general.validate_config"}
+
+    def cfg_names(local, proj):
+        names = set()
+        ty = b.locals[local]["ty"] if isinstance(local, int) and local < len(b.locals) else ""
+        fs = [p_[1:] for p_ in proj if isinstance(p_, str) and p_.startswith(".") and not p_[1:].isdigit()]
+        for k_, f_ in enumerate(fs):
+            if f_ == "general" and k_ + 1 < len(fs):
+                names.add("general." + fs[k_ + 1])
+        if "config::Config" in ty and fs[:1] == ["plugins"]:
+            names.add("plugins")
+        return names
+    used = set()
+    for blk, pl, how in all_places(b):
+        if how == "write":
+            continue
+        used |= cfg_names(pl["l"], ["." + f for f in proj_fields(pl)])
+    hashed = set()
+    found = False
+    for bb, blk, st in F.aggregates("pgcat::pool::ConnectionPool"):
+        if bb is not b or "config_hash" not in st["rv"]["fields"]:
+            continue
+        found = True
+        op = st["rv"]["ops"][st["rv"]["fields"].index("config_hash")]
+        os_ = origins(b, op, taint=True)
+        for o in os_:
+            if o.kind in ("place", "param") and isinstance(o.what, int):
+                hashed |= cfg_names(o.what, list(o.proj))
+        # a hasher is fed through `x.hash(&mut hasher)`: what went into the hasher whose finish() is the identity
+        for fin in [o.call for o in os_ if o.kind == "call" and re.search(r"Hasher(<.*>)?::finish$|::finish$", o.call.name)]:
+            hl = set()
+            origins(b, fin.args[0], visited=hl)
+            for hc in b.calls("re:Hash(<.*>)?>::hash$|^core::hash::Hash::hash$|impl core::hash::Hash for .*>::hash$"):
+                if len(hc.args) < 2:
+                    continue
+                sl = set()
+                origins(b, hc.args[1], visited=sl)
+                if not (sl & hl):
+                    continue
+                for o in origins(b, hc.args[0], taint=True):
+                    if o.kind in ("place", "param") and isinstance(o.what, int):
+                        hashed |= cfg_names(o.what, list(o.proj))
+    if not found:
+        return None
+    return used, hashed, exempt
